@@ -55,6 +55,10 @@ def main(argv):
             for pl in physical_lines(o[key]):
                 if not pl.startswith('//'):
                     direct_bad.append((i, f'{key}: physical line {pl!r} does not start with //'))
+        inner = physical_lines(o['in_namespace'])[1:-1]
+        for pl in inner:
+            if not pl.startswith('//'):
+                direct_bad.append((i, f'in_namespace: physical line {pl!r} inside the namespace does not start with //'))
         if o['lines'] != o['lines_after']:
             direct_bad.append((i, 'rendering changed the lines buffer'))
         if o['r1'] != o['r2']:
